@@ -384,11 +384,34 @@ def _taint_getchild(ctx):
     def mentions(node, names=None):
         names = tainted if names is None else names
         return any(isinstance(x, ast.Name) and x.id in names for x in ast.walk(node))
+    from sa.props._lib_f import expr_guards, parent_map
+    parents = parent_map(f)
+
+    def only_reported(node):
+        """the value of ``node`` ends up in nothing but a diagnostic: some enclosing call is a logging / inert call, or the value is dropped (an expression statement)"""
+        cur = node
+        while id(cur) in parents:
+            par = parents[id(cur)]
+            if isinstance(par, ast.Call) and cur is not par.func and (call_name(par) or "") in INERT:
+                return True
+            if isinstance(par, ast.stmt):
+                return isinstance(par, ast.Expr)
+            cur = par
+        return False
+
+    def is_formatting(c):
+        """a call that only renders its arguments into text: '<literal>'.format(...), format(), repr(), str(), '%'-formatting is handled with the operators"""
+        if isinstance(c.func, ast.Attribute) and c.func.attr in ("format", "format_map", "join") and isinstance(c.func.value, (ast.Constant, ast.JoinedStr)):
+            return True
+        return (call_name(c) or "") in ("format", "repr", "str", "ascii")
     nsan = 0
     for c in [c for c in walk_local(f) if isinstance(c, ast.Call)]:
         args = list(c.args) + [k.value for k in c.keywords]
         cn = call_name(c) or ""
         if not any(mentions(a_) for a_ in args):
+            continue
+        if is_formatting(c) and only_reported(c):
+            ctx.ok("static/segment-only-through-child", q + " | inert use: the segment is formatted into a diagnostic message")
             continue
         if cn in SANITISERS:
             nsan += 1
@@ -412,6 +435,8 @@ def _taint_getchild(ctx):
     for c in [c for c in walk_local(f) if isinstance(c, ast.Call) and isinstance(c.func, ast.Attribute) and mentions(c.func.value) and c.func.attr not in ("decode",)]:
         ctx.violation("static/segment-only-through-child", q + f" | segment.{c.func.attr}()", "a method of the raw request segment is used to derive a path")
     for b in [b for b in walk_local(f) if isinstance(b, ast.BinOp) and mentions(b)]:
+        if isinstance(b.op, ast.Mod) and isinstance(b.left, (ast.Constant, ast.JoinedStr)) and only_reported(b):
+            continue          # '%'-formatting of the segment into a diagnostic message
         ctx.violation("static/segment-only-through-child", q + " | <operator on the segment>", "the request segment is combined into a path by an operator")
     if nsan == 0:
         raise Abstain("no containment-checked constructor is applied to the segment in the normalised getChild")
@@ -428,6 +453,12 @@ def _taint_getchild(ctx):
             continue
         nid = g.ids_of(c)
         guards = [(src(g.node(t).ast), lab) for n_ in nid for t, lab in g.edge_guards(n_)]
+        # ... and the guards inside the expression itself: `x if x.exists() else x.siblingExtensionSearch(..)`, `x.exists() or ...`
+        for te, lab in expr_guards(parents, c):
+            neg = False
+            while isinstance(te, ast.UnaryOp) and isinstance(te.op, ast.Not):
+                te, neg = te.operand, not neg
+            guards.append((src(te), lab if not neg else ("F" if lab == "T" else "T")))
         ok = (f"{recv}.exists()", "F") in guards
         ctx.check(ok, "static/upward-footprint-guarded", q + f" | <path>.{c.func.attr}()",
                   f"{recv}.{c.func.attr}() looks into the parent directory of {recv}; it is not confined to `{recv}.exists()` being false (child('.') is the existing root: its siblings "
@@ -439,7 +470,12 @@ def _undecodable(ctx):
     g = ctx.cfg(f)
     q = "twisted.web.static.File.getChild"
     seg = param_names(f)[1]
-    dec = [c for c in walk_local(f) if isinstance(c, ast.Call) and call_attr(c) == "decode" and isinstance(c.func, ast.Attribute) and src(c.func.value) == seg]
+    names = {seg}          # the parameter and the local names it is copied to (`segment = path`)
+    for _ in range(3):
+        for s_ in walk_local(f):
+            if isinstance(s_, ast.Assign) and isinstance(s_.value, ast.Name) and s_.value.id in names:
+                names |= {t.id for t in s_.targets if isinstance(t, ast.Name)}
+    dec = [c for c in walk_local(f) if isinstance(c, ast.Call) and call_attr(c) == "decode" and isinstance(c.func, ast.Attribute) and src(c.func.value) in names]
     if len(dec) != 1:
         raise Abstain(f"{len(dec)} decode sites of the segment")
     hs = enclosing_try_handlers(f, dec[0])
@@ -515,6 +551,10 @@ def _domain_argument(ctx, meth):
     for u in param_uses(f, p):
         if isinstance(u, ast.JoinedStr):
             continue
+        if isinstance(u, ast.Call) and isinstance(u.func, ast.Attribute) and u.func.attr in ("format", "format_map") and isinstance(u.func.value, (ast.Constant, ast.JoinedStr)):
+            continue          # rendered into a message (the text of an exception): not part of the decision
+        if isinstance(u, ast.BinOp) and isinstance(u.op, ast.Mod) and isinstance(u.left, (ast.Constant, ast.JoinedStr)):
+            continue
         if isinstance(u, ast.Call):
             cn = call_name(u) or ""
             if cn in ("normpath", "os.path.normpath", "_coerceToFilesystemEncoding", "self._getPathAsSameTypeAs", f"{p}.count", "isinstance", "type") or cn.startswith("self._"):
@@ -541,6 +581,10 @@ def check(ctx):
 
 
 MUTANTS = [
+    Mutant("extension-search-in-the-wrong-arm-of-a-conditional-expression", ST, "        if not fpath.exists():\n            fpath = fpath.siblingExtensionSearch(*self.ignoredExts)\n            if fpath is None:\n                return self.childNotFound\n",
+           "        found = fpath.siblingExtensionSearch(*self.ignoredExts) if fpath.exists() else fpath\n        if found is None:\n            return self.childNotFound\n        fpath = found\n",
+           expect_rule="static/upward-footprint-guarded"),
+    Mutant("segment-formatted-into-a-path", ST, "                fpath = self.child(path)\n", "                fpath = self.preauthChild(\"{}\".format(path))\n", expect_rule="static/segment-only-through-child"),
     Mutant("revert-F26-bare-prefix-test", FP, "        if newpath != ourPath and not newpath.startswith(ourPath.rstrip(sep) + sep):", "        if not newpath.startswith(ourPath):"),
     Mutant("child-drops-separator-test", FP, "        if sep in norm:\n            raise InsecurePath(f\"{path!r} contains one or more directory separators\")\n", ""),
     Mutant("child-checks-raw-name-for-separator", FP, "        norm = normpath(path)\n        if sep in norm:", "        norm = normpath(path)\n        if norm.startswith(sep):"),
@@ -561,6 +605,12 @@ MUTANTS = [
     Mutant("index-search-from-request", ST, "            fpath = self.childSearchPreauth(*self.indexNames)", "            fpath = self.childSearchPreauth(*(request.args.get(b\"index\") or self.indexNames))"),
 ]
 SILENT = [
+    Silent("extension-search-as-a-conditional-expression", ST, "        if not fpath.exists():\n            fpath = fpath.siblingExtensionSearch(*self.ignoredExts)\n            if fpath is None:\n                return self.childNotFound\n",
+           "        found = fpath if fpath.exists() else fpath.siblingExtensionSearch(*self.ignoredExts)\n        if found is None:\n            return self.childNotFound\n        fpath = found\n"),
+    Silent("undecodable-segment-reported-with-str-format", ST, "                log.err(None, f\"Could not decode path segment as utf-8: {path!r}\")\n",
+           "                log.err(None, \"Could not decode path segment as utf-8: {!r}\".format(path))\n"),
+    Silent("undecodable-segment-reported-with-percent-format", ST, "                log.err(None, f\"Could not decode path segment as utf-8: {path!r}\")\n",
+           "                log.err(None, \"Could not decode path segment as utf-8: %r\" % (path,))\n"),
     # since F26 is fixed preauthChild is itself contained: serving through it keeps every resource inside the tree (the property's clause for static files)
     Silent("getChild-through-preauthChild-still-contained", ST, "                fpath = self.child(path)\n", "                fpath = self.preauthChild(path)\n"),
     Silent("child-with-extracted-static-helpers", FP, "        newpath = abspath(joinpath(ourPath, norm))\n        if not newpath.startswith(ourPath):\n            raise InsecurePath(f\"{newpath!r} is not a child of {ourPath!r}\")\n        return self.clonePath(newpath)\n\n    def preauthChild",
